@@ -578,7 +578,11 @@ func replaySets(args []string) error {
 	if err != nil {
 		return err
 	}
-	n, steps := 0, 0
+	n, steps, blocks := 0, 0, 0
+	hugeStride := 1500
+	if vh.Tier() != "quick" {
+		hugeStride = 4000
+	}
 	probe := []int{0, 1, 2, 3, 4}
 	dd := vh.NewDedup()
 	err = vh.ForEachVector(args[0], func(_ int, raw []byte) error {
@@ -597,6 +601,17 @@ func replaySets(args []string) error {
 		worlds := []world{&mapWorld{p: make([]*container.MapSet[int], np)}, &sortedWorld{p: make([]*container.SortedSliceSet[int], np)}}
 		if maxVal(v.Ops) <= 4 {
 			worlds = append(worlds, &sortedFloatWorld{p: make([]*container.SortedSliceSet[float64], np)})
+		}
+		// Block concretisations (see block.go): moderate blocks often, blocks beyond 2^16 values rarely.
+		if n%17 == 0 {
+			worlds = append(worlds, &blockWorld{s: 70, m: make([]*container.MapSet[int], np)},
+				&blockWorld{s: 70, sorted: true, o: make([]*container.SortedSliceSet[int], np)})
+			blocks += 2
+		}
+		if n%hugeStride == 7 {
+			worlds = append(worlds, &blockWorld{s: 66000, m: make([]*container.MapSet[int], np)},
+				&blockWorld{s: 3000, sorted: true, o: make([]*container.SortedSliceSet[int], np)})
+			blocks += 2
 		}
 		for _, w := range worlds {
 			var got []setObs
@@ -624,7 +639,7 @@ func replaySets(args []string) error {
 	if err != nil {
 		return err
 	}
-	return res.Close(map[string]any{"replayed": 2 * n, "steps": steps, "distinct_nontrivial": 2 * dd.N()})
+	return res.Close(map[string]any{"replayed": 2 * n, "steps": steps, "distinct_nontrivial": 2 * dd.N(), "block_replays": blocks})
 }
 
 // recordSets drives both implementations with random histories over a large
